@@ -33,6 +33,7 @@ def handle (line : String) : String :=
   | "qblock" :: rest => Drv.qLine rest
   | "lblock" :: rest => Drv.lLine rest
   | "mblock" :: rest => Drv.mLine rest
+  | "linescan" :: rest => Drv.lineScanLine rest
   | "unescape" :: rest => Drv.unescapeLine rest
   | "inline" :: rest => Drv.inlineLine rest
   | "inlinex" :: rest => Drv.inlineXLine rest
